@@ -84,7 +84,11 @@ def body_derivatives(case, ctx):
         for i in range(d):
             # round-off of the stencil: the kernel part (amplified by the condition number) and the mean function, whose centred
             # coordinates carry eps*|x| each times the slope / curvature coefficients
-            floor_mu = 100 * kappa * EPS * mu_scale / h[i] + 16 * gc.mean_roundoff(case["mean"], th_mean, X, Q) / h[i]
+            # ... and of the stencil's abscissae: q +- h and the differences q - x_j carry eps*|coordinate| each, which moves a
+            # function of slope |f'| by |f'|*eps*|coordinate| at both ends of the stencil
+            arg_ro = 8 * EPS * max(abs(q[i]), float(np.max(np.abs(X[:, i])))) / h[i]
+            floor_mu = (100 * kappa * EPS * mu_scale / h[i] + 16 * gc.mean_roundoff(case["mean"], th_mean, X, Q) / h[i]
+                        + arg_ro * (abs(g_mu[k, i]) + mu_scale / L[i]))
             err, tol, conv = numdiff.compare(g_mu[k, i], mean_at, q, i, h[i])
             if not conv:
                 ctx.inconclusive["stencil-not-converged"] += 1
@@ -96,7 +100,7 @@ def body_derivatives(case, ctx):
             err2 = abs(s_mu[k, i] - g_mu[k, i])
             if err2 > tol:
                 raise Violation(f"mean-gradient-forms:{tag}", f"spatial_derivatives mean {s_mu[k, i]!r} vs gradient() mean {g_mu[k, i]!r}")
-            floor_v = 100 * kappa * EPS * a2 / h[i]
+            floor_v = 100 * kappa * EPS * a2 / h[i] + arg_ro * (abs(s_var[k, i]) + a2 / L[i])
             err, tol, conv = numdiff.compare(s_var[k, i], var_at, q, i, h[i])
             if not conv:
                 ctx.inconclusive["stencil-not-converged"] += 1
